@@ -2,7 +2,7 @@ import OhkamiModel.P.SerdePrims
 import OhkamiModel.M.SetCookie
 /-! C11 (and C08) model: the `Cookie` header decoders — `serde_cookie::from_str` into a derived struct
 (ohkami_lib/src/serde_cookie/de.rs, as repaired) and `util::iter_cookies` — and `SetCookie::from_raw`
-(ohkami/src/header/setcookie.rs).  Field types: String, &str, integers, bool, Option of those; unknown cookies are ignored. -/
+(ohkami/src/header/setcookie.rs).  Field types: String, &str, char, integers, bool, Option of those; unknown cookies are ignored. -/
 namespace Ohkami.Cookie
 open Ohkami Ohkami.Serde Ohkami.Serde.Concrete
 
@@ -67,6 +67,9 @@ def fieldValue : Nat → Ty → Bytes → Out (Value × Bytes)
         | _ => .err)
     | .sint bits => (match nextValue input with
         | (some (v, _), r) => (match parseInt true bits v with | some z => .ok (.int z, r) | none => .err)
+        | _ => .err)
+    | .char => (match nextValue input with            -- `deserialize_char`: the decoded value is exactly one character
+        | (some (v, _), r) => (match utf8Chars v with | some [c] => .ok (.char c, r) | _ => .err)
         | _ => .err)
     | .option t => if isNone input then .ok (.none, input) else
         (match fieldValue fuel t input with | .ok (v, r) => .ok (.some v, r) | .err => .err)
